@@ -136,7 +136,9 @@ def run_tlc(
     if m:
         res.depth = int(m.group(1))
     if coverage:
-        for ln in out.splitlines():
+        # TLC prints the statistics periodically; only the last report is the final count
+        cov_text = out.rsplit("The coverage statistics at", 1)[-1]
+        for ln in cov_text.splitlines():
             mc = _COV.match(ln.strip())
             if mc:
                 name = mc.group(1)
